@@ -17,6 +17,7 @@ from .serialization import (
     cell_to_parent,
     get_stride,
     is_first_child,
+    HILBERT_START_BIT,
     FIRST_HILBERT_RESOLUTION
 )
 from .cell_info import get_num_children
@@ -66,6 +67,13 @@ def uncompact(cells: List[int], target_resolution: int) -> List[int]:
     return result
 
 
+def _hierarchical_order(cell: int) -> int:
+    """Sort key under which siblings are adjacent at every resolution."""
+    if cell != 0 and get_resolution(cell) == 0:
+        return cell + ((4 * (cell >> HILBERT_START_BIT)) << HILBERT_START_BIT)
+    return cell
+
+
 def compact(cells: List[int]) -> List[int]:
     """
     Compacts a set of A5 cells by replacing complete groups of sibling cells with their parent cells.
@@ -79,8 +87,10 @@ def compact(cells: List[int]) -> List[int]:
     if len(cells) == 0:
         return []
 
-    # Single sort and dedup
-    current_cells = sorted(set(cells))
+    # Single sort and dedup. Resolution 0 ids carry the face number in their top 6 bits, while all
+    # finer ids carry 5 * face + segment, so order res 0 cells as if they used the finer layout.
+    # This keeps every cell next to its siblings and inside the id range of its own descendants.
+    current_cells = sorted(set(cells), key=_hierarchical_order)
 
     # Compact until no more changes
     # No re-sorting needed - parents maintain sorted order!
